@@ -851,6 +851,55 @@ pub fn run_c14(cfg: &Config) -> i32 {
 		total.merge(rep);
 	}
 
+	// (h) strings and keys of every length 0..=40 against copies differing in exactly one byte (first,
+	//     middle, last) and against extensions of themselves (one more character, NUL padding), as string
+	//     values, as keys of one-entry objects and inside arrays; both operand orders through c14_pair
+	{
+		let rep = parallel(cfg.threads, 8, |i| {
+			let mut rep = Report::new();
+			for len in (0..=40usize).filter(|l| l % 8 == i) {
+				let base: String = (0..len).map(|j| char::from(b'0' + (j % 10) as u8)).collect();
+				let mut variants: Vec<String> = Vec::new();
+				for pos in [0, len / 2, len.saturating_sub(1)] {
+					if pos < len {
+						let mut b = base.clone().into_bytes();
+						b[pos] = b'X';
+						variants.push(String::from_utf8(b).unwrap());
+						let mut b = base.clone().into_bytes();
+						b[pos] = b' ';
+						variants.push(String::from_utf8(b).unwrap());
+					}
+				}
+				variants.push(format!("{}g", base));
+				variants.push(format!("{}\u{0}", base));
+				variants.push(format!("{}{}", base, "\u{0}".repeat(17)));
+				variants.push(format!("{}\u{e9}", base));
+				variants.dedup();
+				rep.max("longest_compared_string", (len + 17) as u64);
+				for v in &variants {
+					for shape in 0..4usize {
+						let wrap = |x: &str| -> RVal {
+							match shape {
+								0 => RVal::Str(x.to_string()),
+								1 => RVal::Obj(vec![(x.to_string(), RVal::Null)]),
+								2 => RVal::Arr(vec![RVal::Num("1".into()), RVal::Str(x.to_string())]),
+								_ => RVal::Obj(vec![("k".into(), RVal::Num("1".into())), (x.to_string(), RVal::Str(x.to_string()))]),
+							}
+						};
+						let (ra, rb) = (wrap(&base), wrap(v));
+						let (a, b) = (from_rval(&ra), from_rval_push(&rb));
+						let desc = || json!({"sub": "cmp-pair", "a": doc_of(&ra), "b": doc_of(&rb)});
+						c14_pair(&mut rep, "strings-differing-in-one-byte-or-extended", &a, &b, false, &desc);
+						c14_pair(&mut rep, "strings-differing-in-one-byte-or-extended", &b, &a, false, &desc);
+						rep.distinct_by_construction(2);
+					}
+				}
+			}
+			rep
+		});
+		total.merge(rep);
+	}
+
 	// (g) clone_from: whatever the target held before, afterwards it equals the source (==, cmp, hash) and
 	//     the source is untouched; all ordered pairs of a small family with duplicate keys, then random pairs
 	{
@@ -1115,7 +1164,7 @@ pub fn run_c14(cfg: &Config) -> i32 {
 		cfg,
 		EvidenceMeta {
 			id: "C14",
-			rule: "cases: (a) generated pairs (a value and an identical copy / an unrelated value / a near-copy differing in one leaf, key, position, multiplicity) and clones; (b) every pair and every triple of the objects with at most 2 (thorough 3) entries over keys {a,b,c} x values {0,1,2} (mixed lengths sharing key prefixes); (c) random triples of related values; (d) objects with identical entry lists built through 10 different histories (from_vec, push, grow-then-shrink, push_front, parse, clone of a grown object, interleaved junk removed by position, in-place mutation, short keys stored on the heap, keys truncated from longer ones), all pairs; (e) random operation histories (the C06 alphabet) in which after every operation the object is compared (==, cmp, hash, also wrapped in Value) with a fresh object built from the model's entries; (f) containers of 1..130 members against copies differing in exactly one key, value or item, for every position; (g) clone_from over all ordered pairs of the objects with at most 4 (thorough 5) entries over keys {a,b} x values {0,1} and over random pairs: the target must then equal the source under every law and the source be unchanged; laws: == iff content equal (decided on the reference trees), == iff cmp Equal iff partial_cmp Some(Equal), symmetric ==, cmp antisymmetric, transitive, equal => equal hashes under two hashers; the hook counts how many history pairs really had different index internals; distinct by hash / construction",
+			rule: "cases: (a) generated pairs (a value and an identical copy / an unrelated value / a near-copy differing in one leaf, key, position, multiplicity) and clones; (b) every pair and every triple of the objects with at most 2 (thorough 3) entries over keys {a,b,c} x values {0,1,2} (mixed lengths sharing key prefixes); (c) random triples of related values; (d) objects with identical entry lists built through 10 different histories (from_vec, push, grow-then-shrink, push_front, parse, clone of a grown object, interleaved junk removed by position, in-place mutation, short keys stored on the heap, keys truncated from longer ones), all pairs; (e) random operation histories (the C06 alphabet) in which after every operation the object is compared (==, cmp, hash, also wrapped in Value) with a fresh object built from the model's entries; (f) containers of 1..130 members against copies differing in exactly one key, value or item, for every position; (h) strings and keys of every length 0..40 against copies differing in one byte (first, middle, last) and against extensions of themselves (one more character, NUL padding), as values, keys and array items; (g) clone_from over all ordered pairs of the objects with at most 4 (thorough 5) entries over keys {a,b} x values {0,1} and over random pairs: the target must then equal the source under every law and the source be unchanged; laws: == iff content equal (decided on the reference trees), == iff cmp Equal iff partial_cmp Some(Equal), symmetric ==, cmp antisymmetric, transitive, equal => equal hashes under two hashers; the hook counts how many history pairs really had different index internals; distinct by hash / construction",
 			exhaustive: false,
 			assumptions: vec!["content equality = equality of the reference trees (numbers by spelling)".into()],
 			extra: json!({}),
